@@ -98,16 +98,55 @@ func (s *Sim) HTTPDo(addr string, req *http.Request) (status int, body string, r
 	}
 	e.inflight++
 	rec := httptest.NewRecorder()
+	g := &guardedWriter{ResponseRecorder: rec, s: s, path: req.URL.Path}
 	func() {
 		defer func() {
+			g.finished = true
 			e.inflight--
 			if e.inflight == 0 {
 				e.idle.Signal()
 			}
 		}()
-		e.srv.Handler.ServeHTTP(rec, req)
+		e.srv.Handler.ServeHTTP(g, req)
 	}()
 	return rec.Code, rec.Body.String(), false
+}
+
+// guardedWriter is the ResponseWriter a simulated request is served with. net/http forbids using
+// a ResponseWriter after its handler has returned (the server recycles its buffers: a late Write
+// or Flush is a nil dereference on whatever goroutine makes it); the recorder would accept it
+// silently, so the guard reports it. Write and Flush are scheduling points, as a network write is.
+type guardedWriter struct {
+	*httptest.ResponseRecorder
+	s        *Sim
+	path     string
+	finished bool
+}
+
+func (g *guardedWriter) late(what string) {
+	g.s.Fail("panic", "response-writer-used-after-handler-returned", "a ResponseWriter ("+g.path+") was "+what+" after its handler had returned: in net/http this is a nil-pointer panic on the calling goroutine")
+}
+
+func (g *guardedWriter) Write(b []byte) (int, error) {
+	if g.finished {
+		g.late("written to")
+	}
+	g.s.yield("simhttp.Write")
+	if g.finished {
+		g.late("written to")
+	}
+	return g.ResponseRecorder.Write(b)
+}
+
+func (g *guardedWriter) Flush() {
+	if g.finished {
+		g.late("flushed")
+	}
+	g.s.yield("simhttp.Flush")
+	if g.finished {
+		g.late("flushed")
+	}
+	g.ResponseRecorder.Flush()
 }
 
 // Listening reports whether a server currently owns the address.
